@@ -57,6 +57,7 @@ type Oblig struct {
 	Clause  string
 	Trace   []int
 	Cover   bool // cover query: expected SAT (vacuity guard)
+	AnyPath bool // cover passes if any path instance is not refuted
 	// results
 	Verdict string // unsat (discharged), sat, unknown
 	Solver  string
@@ -177,6 +178,7 @@ type FnRun struct {
 	errs     []string
 	inputs   map[string]string
 	maxPaths int
+	globalFacts []string
 	zeroRefs []string
 	litAxioms map[string][]string
 	noBind   int
@@ -257,6 +259,11 @@ func (r *FnRun) freshVal(st *State, t types.Type, hint string) Val {
 		st.assume(sNot(sx("(_ is ibox)", b)))
 		st.assume(sOr(sEq(b, "null"), sx("<=", sx("+", o, c), sx("alen", b))))
 		st.assume(sOr(sEq(b, "null"), sAnd(sEq(sx("elty", b), fmt.Sprint(r.W.eltyFor(t.Underlying().(*types.Slice).Elem()))), sNot(sEq(sx("rootref", b), ghostRoot)))))
+		if kindOf(t.Underlying().(*types.Slice).Elem()) == KInt {
+			// backing arrays of scalar slices are whole objects or array-typed fields, not elements of
+			// another array (no arrays of arrays of scalars reach the functions under contract)
+			st.assume(sNot(sx("(_ is elt)", b)))
+		}
 		return Val{K: KSlice, T: t, Bas: b, Off: o, Len: l, Cap: c}
 	case KIface:
 		tg := r.fresh(hint+".t", "Int")
@@ -439,6 +446,11 @@ func (r *FnRun) load1(st *State, p string, t types.Type, hint string) Val {
 		st.assume(sImp(sEq(b, "null"), sEq(c, "0")))
 		st.assume(sOr(sEq(b, "null"), sx("<=", sx("+", o, c), sx("alen", b))))
 		st.assume(sOr(sEq(b, "null"), sAnd(sEq(sx("elty", b), fmt.Sprint(r.W.eltyFor(t.Underlying().(*types.Slice).Elem()))), sNot(sEq(sx("rootref", b), ghostRoot)))))
+		if kindOf(t.Underlying().(*types.Slice).Elem()) == KInt {
+			// backing arrays of scalar slices are whole objects or array-typed fields, not elements of
+			// another array (no arrays of arrays of scalars reach the functions under contract)
+			st.assume(sNot(sx("(_ is elt)", b)))
+		}
 		return Val{K: KSlice, T: t, Bas: b, Off: o, Len: l, Cap: c}
 	case KIface:
 		tg := r.bind(st, sx("select", st.heap["I"], sx("fld", p, "0")), hint+".t", "Int")
@@ -727,6 +739,16 @@ func (r *FnRun) globalRef(g *ssa.Global) string {
 	id := -(len(r.inputs) + 10)
 	t := sx("obj", sInt(int64(id)))
 	r.inputs[key] = t
+	// package-level variables are objects of their own: typed like their
+	// contents, or (for scalars, slices, interfaces) with a unique marker type
+	gty := sInt(int64(id))
+	if pt, ok := g.Type().(*types.Pointer); ok {
+		switch pt.Elem().Underlying().(type) {
+		case *types.Struct, *types.Array:
+			gty = fmt.Sprint(r.W.tagFor(pt.Elem()))
+		}
+	}
+	r.globalFacts = append(r.globalFacts, sEq(sx("tyof", t), gty), sEq(sx("elty", t), "0"))
 	if r.W.zeroGlobals[g] {
 		r.zeroRefs = append(r.zeroRefs, t)
 		r.Assump["package-level array "+g.String()+" is never written (checked: only used as the source of copy) and keeps its zero value"] = true
